@@ -1,5 +1,5 @@
-from ._elem import run_elem
+from ._multi import run_multi
 
 
 def run(tier, replay=None):
-    return run_elem('C18', tier, replay)
+    return run_multi('C18', tier, replay)
